@@ -309,6 +309,7 @@ def run_cell(mod_name: str, cell: dict) -> dict:
         finally:
             stats.merge(ctx.stats)
 
+    symx.set_pool(cell.get('gens', 56))
     signal.signal(signal.SIGALRM, _alarm)
     signal.setitimer(signal.ITIMER_REAL, cell.get('time_limit', 900))
     try:
